@@ -111,29 +111,34 @@ def sa_env():
     class O(Base):
         __tablename__ = "o"
         id = sa.Column(sa.Integer, primary_key=True); n = sa.Column(sa.Integer); name = sa.Column(sa.String)
+        ps = relationship("P", back_populates="o")
+        ks = relationship("K", back_populates="o")
     class Tag(Base):
         __tablename__ = "tag"
         id = sa.Column(sa.Integer, primary_key=True); label = sa.Column(sa.String)
+        ps = relationship("P", secondary=p_tags, back_populates="tags")
+        ws = relationship("W", back_populates="o")
     class W(Base):
         __tablename__ = "w"
         id = sa.Column(sa.Integer, primary_key=True)
         o_id = sa.Column(sa.ForeignKey("tag.id"), nullable=True)
-        o = relationship("Tag")
+        o = relationship("Tag", back_populates="ws")
+        ps = relationship("P", back_populates="w")
     class P(Base):
         __tablename__ = "p"
         id = sa.Column(sa.Integer, primary_key=True); a = sa.Column(sa.Integer); s = sa.Column(sa.String)
         o_id = sa.Column(sa.ForeignKey("o.id"), nullable=True)
-        o = relationship("O")
+        o = relationship("O", back_populates="ps")
         w_id = sa.Column(sa.ForeignKey("w.id"), nullable=True)
-        w = relationship("W")
+        w = relationship("W", back_populates="ps")
         kids = relationship("K", back_populates="p")
-        tags = relationship("Tag", secondary=p_tags)
+        tags = relationship("Tag", secondary=p_tags, back_populates="ps")
     class K(Base):
         __tablename__ = "k"
         id = sa.Column(sa.Integer, primary_key=True); x = sa.Column(sa.Integer)
         p_id = sa.Column(sa.ForeignKey("p.id")); o_id = sa.Column(sa.ForeignKey("o.id"), nullable=True)
         p = relationship("P", back_populates="kids")
-        o = relationship("O")
+        o = relationship("O", back_populates="ks")
     eng = sa.create_engine("sqlite://")
     Base.metadata.create_all(eng)
     _sa.update(sa=sa, Base=Base, T=T, O=O, P=P, K=K, Tag=Tag, W=W, p_tags=p_tags, engine=eng, Session=Session, t_table=T.__table__, p_table=P.__table__)
